@@ -174,6 +174,7 @@ type vcGaStream struct {
 	req        int
 	doneBefore bool
 	attempts   int
+	picks      int
 	sEnd       bool
 }
 
@@ -587,7 +588,7 @@ func vcExec(t *testing.T, mode string, ops []string, o *vu.Out) {
 					return
 				}
 				ri, kind := int(vfAtoiC17(f[1])), int(vfAtoiC17(f[2]))
-				if ri < 0 || ri > 9999 || kind < 0 || kind > 2 {
+				if ri < 0 || ri > 63 || kind < 0 || kind > 2 {
 					valid = false
 					return
 				}
@@ -873,6 +874,7 @@ func (c *vcCase) gaSnapshot(kind string, k *vcConn) *vcGaStep {
 		if r := c.reqs[s.req]; r != nil {
 			gs.doneBefore = r.done
 			gs.attempts = len(r.attempts)
+			gs.picks = len(r.picks)
 		}
 		g.streams = append(g.streams, gs)
 	}
@@ -892,7 +894,9 @@ func (c *vcCase) goAwayOracle(step string) {
 		if r == nil {
 			continue
 		}
-		newAttempt := len(r.attempts) > gs.attempts
+		// a replay shows as a new pool selection (in strict mode the request may then queue
+		// on the selected connection before its HEADERS are sent)
+		newAttempt := len(r.attempts) > gs.attempts || len(r.picks) > gs.picks
 		if g.kind == "closeconn" {
 			// in-flight requests fail with the connection's error; nothing is replayed
 			if gs.sEnd {
@@ -956,7 +960,7 @@ func (c *vcCase) goAwayOracle(step string) {
 			c.o.Stat("goaway:retried")
 			if !newAttempt {
 				c.o.Fail("", fmt.Sprintf("%q: request %d on stream %d > last-stream-id %d was dropped (result %q, no new attempt)", step, gs.req, gs.id, g.last, r.result))
-			} else if a := r.attempts[len(r.attempts)-1]; a.conn == k.idx {
+			} else if len(r.picks) > gs.picks && r.picks[len(r.picks)-1] == k.idx {
 				c.o.Fail("", fmt.Sprintf("%q: request %d was retried on the same connection %d", step, gs.req, k.idx))
 			} else if len(r.attempts) > gs.attempts+1 {
 				c.o.Fail("", fmt.Sprintf("%q: request %d was sent %d more times after one GOAWAY", step, gs.req, len(r.attempts)-gs.attempts))
